@@ -108,6 +108,27 @@ v('c19r1-unused-flag', 'C19', 'C19-R1', 'src/reader.go', "\t\tFollow: opts.follo
 v('c20r1-enqueue-no-cancel', 'C20', 'C20-R1', 'src/terminal.go', "\t\t\t_, list := t.buildPlusList(command, false)\n\t\t\tt.cancelPreview()\n", "\t\t\t_, list := t.buildPlusList(command, false)\n")
 v('c20r2-one-reap', 'C20', 'C20-R2', 'src/terminal.go', "\t\t\t\t\t\t<-reapChan         // Goroutine 2 and 3 finished\n\t\t\t\t\t\t<-reapChan\n", "\t\t\t\t\t\t<-reapChan         // Goroutine 2 and 3 finished\n")
 
+# ---- C11
+v('c11r1-skip-after-seq', 'C11', 'C11-R1', 'src/ansi.go', "\t\tprevIdx = idx\n", "\t\tprevIdx = idx + 1\n")
+v('c11r1-interp-range', 'C11', 'C11-R1', 'src/ansi.go', "newState := interpretCode(str[start:idx], state)", "newState := interpretCode(str[start:], state)")
+v('c11r1-rescan-from-start', 'C11', 'C11-R1', 'src/ansi.go', "\t\tstart += idx\n\t\tidx += end\n", "\t\tstart += idx\n\t\tidx = end\n")
+v('c11r2-byte-offsets', 'C11', 'C11-R2', 'src/ansi.go', "runeCount += utf8.RuneCountInString(prev)", "runeCount += len(prev)")
+v('c11r3-22-leaves-dim', 'C11', 'C11-R3', 'src/ansi.go', "\t\t\t\t\tstate.attr = state.attr &^ tui.Bold\n\t\t\t\t\tstate.attr = state.attr &^ tui.Dim\n", "\t\t\t\t\tstate.attr = state.attr &^ tui.Bold\n")
+v('c11r3-24-clears-italic', 'C11', 'C11-R3', 'src/ansi.go', "\t\t\t\tcase 24: // tput rmul\n\t\t\t\t\tstate.attr = state.attr &^ tui.Underline", "\t\t\t\tcase 24: // tput rmul\n\t\t\t\t\tstate.attr = state.attr &^ tui.Italic")
+v('c11r4-bright-bg-to-fg', 'C11', 'C11-R4', 'src/ansi.go', "state.bg = tui.Color(num - 100 + 8)", "state.fg = tui.Color(num - 100 + 8)")
+v('c11r4-range-width', 'C11', 'C11-R4', 'src/ansi.go', "num >= 90 && num <= 97", "num >= 90 && num <= 98")
+v('c11r4-49-resets-fg', 'C11', 'C11-R4', 'src/ansi.go', "\t\t\t\tcase 49:\n\t\t\t\t\tstate.bg = -1", "\t\t\t\tcase 49:\n\t\t\t\t\tstate.fg = -1")
+v('c11r5-green-shift', 'C11', 'C11-R5', 'src/ansi.go', "*ptr = *ptr | tui.Color(num<<8)", "*ptr = *ptr | tui.Color(num<<4)")
+v('c11r5-stuck-selector', 'C11', 'C11-R5', 'src/ansi.go', "\t\t\t\tcase 5:\n\t\t\t\t\tstate256++\n\t\t\t\tdefault:\n\t\t\t\t\tstate256 = 0\n", "\t\t\t\tcase 5:\n\t\t\t\t\tstate256++\n\t\t\t\tdefault:\n")
+v('c11r6-final-no-at', 'C11', 'C11-R6', 'src/ansi.go', "if 'a' <= c && c <= 'z' || 'A' <= c && c <= 'Z' || c == '@' {", "if 'a' <= c && c <= 'z' || 'A' <= c && c <= 'Z' {")
+v('c11r6-param-no-question', 'C11', 'C11-R6', 'src/ansi.go', "'8', '9', ';', ':', '?':", "'8', '9', ';', ':':")
+v('c11r6-prefilter-no-bs', 'C11', 'C11-R6', 'src/ansi.go', "\t\tcase '\\x0e', '\\x0f', '\\x1b', '\\x08':\n\t\t\t// We ignore", "\t\tcase '\\x0e', '\\x0f', '\\x1b':\n\t\t\t// We ignore")
+v('c11r6-esc-newline', 'C11', 'C11-R6', 'src/ansi.go', "if i+1 < len(s) && s[i+1] != '\\n' {", "if i+1 < len(s) {")
+v('c11r6-isprint-open', 'C11', 'C11-R6', 'src/ansi.go', "return '\\x20' <= c && c <= '\\x7e'", "return '\\x20' < c && c <= '\\x7e'")
+v('c11r6-osc-sep', 'C11', 'C11-R6', 'src/ansi.go', "(s[i+j] == ';' || s[i+j] == ':') && isPrint", "s[i+j] == ';' && isPrint")
+v('c11r7-no-carry', 'C11', 'C11-R7', 'src/core.go', "\t\t\t\tlineAnsiState = newState\n", "\t\t\t\t_ = newState\n")
+v('c11r7-raw-text', 'C11', 'C11-R7', 'src/core.go', "\t\t\t\ttrimmed, _, _ := extractColor(byteString(data), nil, nil)\n\t\t\t\treturn util.ToChars(stringBytes(trimmed)), nil", "\t\t\t\ttrimmed, _, _ := extractColor(byteString(data), nil, nil)\n\t\t\t\t_ = trimmed\n\t\t\t\treturn util.ToChars(data), nil")
+
 # ---- benign edits (must stay silent)
 b('rename-previousInput', ['C08', 'C09'], 'src/terminal.go', 'previousInput', 'inputBefore', count=0)
 b('rename-leftover', ['C06'], 'src/reader.go', 'leftover', 'carry', count=0)
@@ -122,6 +143,12 @@ b('exit-codes-switch', ['C07'], 'src/terminal.go', "\t\t\t\t\t\t\tif t.output() 
 b('seq-strict', ['C08', 'C13'], 'src/matcher.go', "if val.seq >= request.seq {", "if val.seq > request.seq {")
 # (a benign 'new action' edit needs the stringer tool to regenerate actiontype_string.go; not available offline)
 b('lookup-then-guard', ['C01'], 'src/pattern.go', "\tif p.cacheable {\n\t\tif cached := p.cache.Lookup(chunk, cacheKey); cached != nil {\n\t\t\treturn cached\n\t\t}\n\t}", "\tcached := p.cache.Lookup(chunk, cacheKey)\n\tif p.cacheable && cached != nil {\n\t\treturn cached\n\t}")
+
+b('ansi-introducer-expr', ['C11'], 'src/ansi.go', "\tswitch c {\n\tcase '\\\\', '[', '(', ')':\n\t\treturn true\n\t}\n\treturn false", "\treturn c == '[' || c == '\\\\' || c == '(' || c == ')'")
+b('ansi-rename-state256', ['C11'], 'src/ansi.go', 'state256', 'extState', count=0)
+b('ansi-finals-reorder', ['C11'], 'src/ansi.go', "if 'a' <= c && c <= 'z' || 'A' <= c && c <= 'Z' || c == '@' {", "if c == '@' || 'A' <= c && c <= 'Z' || 'a' <= c && c <= 'z' {")
+b('ansi-attr-compound', ['C11'], 'src/ansi.go', "state.attr = state.attr | tui.Bold", "state.attr |= tui.Bold")
+b('ansi-colour-switch', ['C11'], 'src/ansi.go', "\t\t\t\t\tif num >= 30 && num <= 37 {\n\t\t\t\t\t\tstate.fg = tui.Color(num - 30)\n\t\t\t\t\t} else if num >= 40 && num <= 47 {\n\t\t\t\t\t\tstate.bg = tui.Color(num - 40)\n\t\t\t\t\t} else if", "\t\t\t\t\tif num >= 40 && num <= 47 {\n\t\t\t\t\t\tstate.bg = tui.Color(num - 40)\n\t\t\t\t\t} else if num >= 30 && num <= 37 {\n\t\t\t\t\t\tstate.fg = tui.Color(num - 30)\n\t\t\t\t\t} else if")
 
 def build(entries, outdir, kind):
     os.makedirs(outdir, exist_ok=True)
